@@ -58,6 +58,7 @@ type Exec struct {
 	retPaths int
 	kinds    map[string]int
 	refKey   map[string]bool
+	onceMemo map[*ssa.Alloc]bool
 	escMemo  map[*ssa.Alloc]bool
 	refined  map[string]bool
 	noImpl   []string
